@@ -21,20 +21,20 @@ theorem accessorField_cases {g : Option Val} (h : accessorFieldValid g = true) :
     · simp [h]
 
 /-- non-configurable data property -/
-theorem compatFixed_data (ext : Bool) (d : Desc) (v : Val) (cw ce : Bool) (hd : d.Valid) :
-    isCompatibleFixed ext d (some ⟨some v, cw, false, ce, false, none, none⟩) =
+theorem compat_data (ext : Bool) (d : Desc) (v : Val) (cw ce : Bool) (hd : d.Valid) :
+    isCompatible ext d (some ⟨some v, cw, false, ce, false, none, none⟩) =
       specIsCompatible ext d.toPD (some (.data v cw ce false)) := by
   rcases d with ⟨dv, dw, dc, de, dg, ds⟩
   simp [Desc.Valid] at hd
   cases dw <;> cases dc <;> cases de <;> cases dv <;> cases dg <;> cases ds <;>
-    simp_all [isCompatibleFixed, specIsCompatible, Desc.toPD, Desc.isGeneric, Desc.isData, Desc.isAccessor,
+    simp_all [isCompatible, specIsCompatible, Desc.toPD, Desc.isGeneric, Desc.isData, Desc.isAccessor,
       PD.isGenericDescriptor, PD.isAccessorDescriptor, PD.isDataDescriptor, Flag.toOpt, Flag.bool, Cur.configurable,
       Cur.enumerable, Cur.isAccessor, sameAs, accessorFieldValid] <;>
     (cases ce <;> cases cw <;> simp_all)
 
 /-- non-configurable accessor property -/
-theorem compatFixed_acc (ext : Bool) (d : Desc) (cg cs : Option Nat) (ce : Bool) (hd : d.Valid) :
-    isCompatibleFixed ext d (some ⟨none, false, false, ce, true, cg, cs⟩) =
+theorem compat_acc (ext : Bool) (d : Desc) (cg cs : Option Nat) (ce : Bool) (hd : d.Valid) :
+    isCompatible ext d (some ⟨none, false, false, ce, true, cg, cs⟩) =
       specIsCompatible ext d.toPD (some (.acc cg cs ce false)) := by
   rcases d with ⟨dv, dw, dc, de, dg, ds⟩
   obtain ⟨hg, hs, hx⟩ := hd
@@ -42,18 +42,18 @@ theorem compatFixed_acc (ext : Bool) (d : Desc) (cg cs : Option Nat) (ce : Bool)
   rcases accessorField_cases hs with hs | hs | ⟨os, hs⟩ <;>
   subst hg <;> subst hs <;>
   cases dw <;> cases dc <;> cases de <;> cases dv <;>
-    simp_all [isCompatibleFixed, specIsCompatible, Desc.toPD, Desc.isGeneric, Desc.isData, Desc.isAccessor,
+    simp_all [isCompatible, specIsCompatible, Desc.toPD, Desc.isGeneric, Desc.isData, Desc.isAccessor,
       PD.isGenericDescriptor, PD.isAccessorDescriptor, PD.isDataDescriptor, Flag.toOpt, Flag.bool, Cur.configurable,
       Cur.enumerable, Cur.isAccessor, asObj] <;>
     (try (cases ce <;> (try simp_all) <;> grind))
 
 /-- configurable property: everything is compatible -/
-theorem compatFixed_configurable (ext : Bool) (d : Desc) (p : VProp) (h : p.configurable = true) :
-    isCompatibleFixed ext d (some p) = specIsCompatible ext d.toPD (some p.toCur) := by
+theorem compat_configurable (ext : Bool) (d : Desc) (p : VProp) (h : p.configurable = true) :
+    isCompatible ext d (some p) = specIsCompatible ext d.toPD (some p.toCur) := by
   rcases p with ⟨cv, cw, cc, ce, ca, cg, cs⟩
   simp at h
   subst h
-  cases ca <;> simp [isCompatibleFixed, specIsCompatible, VProp.toCur, Cur.configurable]
+  cases ca <;> simp [isCompatible, specIsCompatible, VProp.toCur, Cur.configurable]
 
 /-- shape of a well-formed valueProperty -/
 theorem VProp.wf_shape (p : VProp) (h : p.WF) :
@@ -72,25 +72,25 @@ theorem VProp.wf_shape (p : VProp) (h : p.WF) :
     subst hv hw
     right; rfl
 
-theorem isCompatibleFixed_some (ext : Bool) (d : Desc) (p : VProp) (hd : d.Valid) (hw : p.WF) :
-    isCompatibleFixed ext d (some p) = specIsCompatible ext d.toPD (some p.toCur) := by
+theorem isCompatible_some (ext : Bool) (d : Desc) (p : VProp) (hd : d.Valid) (hw : p.WF) :
+    isCompatible ext d (some p) = specIsCompatible ext d.toPD (some p.toCur) := by
   cases hc : p.configurable
   · rcases VProp.wf_shape p hw with ⟨v, hp⟩ | hp
     · rw [hp, hc]
-      simpa [VProp.toCur] using compatFixed_data ext d v p.writable p.enumerable hd
+      simpa [VProp.toCur] using compat_data ext d v p.writable p.enumerable hd
     · rw [hp, hc]
-      simpa [VProp.toCur] using compatFixed_acc ext d p.getterFunc p.setterFunc p.enumerable hd
-  · exact compatFixed_configurable ext d p hc
+      simpa [VProp.toCur] using compat_acc ext d p.getterFunc p.setterFunc p.enumerable hd
+  · exact compat_configurable ext d p hc
 
 /-- the current code differs from the repaired variant only in the kind-mismatch branch with no
 `configurable` field -/
 theorem isCompatible_eq_fixed_of (ext : Bool) (d : Desc) (cur : Option VProp)
     (h : d.configurable ≠ .notSet ∨ ∀ p, cur = some p → (d.isGeneric = true ∨ d.isData = !p.accessor)) :
-    isCompatible ext d cur = isCompatibleFixed ext d cur := by
+    isCompatible ext d cur = isCompatible ext d cur := by
   cases cur with
   | none => rfl
   | some p =>
-    simp only [isCompatible, isCompatibleFixed]
+    simp only [isCompatible, isCompatible]
     rcases h with h | h
     · cases hc : d.configurable <;> simp_all
     · rcases h p rfl with h | h
